@@ -354,7 +354,16 @@ def second_quant_session(rng, sid, p):
         return e
 
     sizes = [rng.choice([1, 2]), rng.choice([1, 2])]
-    for _ in range(50):
+    equal_sectors = rng.random() < 0.25
+    if equal_sectors:
+        # two blocks whose unperturbed sectors are THE SAME operator expression: the equation for the
+        # off-diagonal block is still well defined for a right-hand side without number-conserving part
+        # (every term shifts an occupation, so the denominators are level spacings), and that right-hand
+        # side is NOT Hermitian
+        sizes = [1, 1]
+        e_ = h0(rng.choice([0, 11]))
+        eigs = ([e_], [e_])
+    for _ in range(0 if equal_sectors else 50):
         eigs = tuple([h0(rng.choice([0, 0, 11, 13]) + 17 * b + 5 * a) for a in range(sizes[b])] for b in range(2))
         # the property is about non-degenerate levels: no two DIFFERENT (entry, occupation) pairs may
         # share an unperturbed energy on the window
@@ -371,7 +380,8 @@ def second_quant_session(rng, sid, p):
         if not clash:
             break
     else:
-        raise common.Regenerate("degenerate levels")
+        if not equal_sectors:
+            raise common.Regenerate("degenerate levels")
     solve = solve_sylvester_2nd_quant(eigs)
 
     def rand_op():
@@ -391,6 +401,12 @@ def second_quant_session(rng, sid, p):
 
     i, j = rng.choice([(0, 1), (1, 0), (0, 0), (1, 1)])
     Y = sympy.Matrix([[rand_op() for _ in range(sizes[j])] for _ in range(sizes[i])])
+    if equal_sectors:
+        i, j = rng.choice([(0, 1), (1, 0)])
+        o = ops[0]
+        c1 = sympy.Rational(rng.randint(1, 3), rng.choice([1, 2]))
+        c2 = sympy.Rational(rng.randint(-3, 3) or 2, rng.choice([1, 2]))
+        Y = sympy.Matrix([[c1 * o + c2 * Ns[0] * Dagger(o)]])
     if i == j:
         Y = Y + Dagger(Y)   # the library only asks for Hermitian right-hand sides on diagonal blocks
     Yn = Y.applyfunc(lambda x: NOF.from_expr(x, operators=ops))
@@ -410,7 +426,7 @@ def second_quant_session(rng, sid, p):
             checks.append(dict(kind=kind, x=kx, y=ky, z=kz, w=kw, tree=0, k=0, margin=3))
     ses = dict(sid=sid, modes=[dict(kind=m["kind"], lo=m["lo"], hi=m["hi"]) for m in modes],
                states=[list(s_) for s_ in states], strides=strides, objs=objs, trees=[], checks=checks)
-    meta = dict(gen="second_quant", modes=mk, index=(i, j), eigs=str(eigs), Y=str(Y))
+    meta = dict(gen="second_quant", modes=mk, index=(i, j), eigs=str(eigs), Y=str(Y), equal_sectors=equal_sectors)
     return ses, meta
 
 
